@@ -239,7 +239,34 @@ CHECKS["C02"] = {
     "assumptions": ["toolchain go1.26.8 (newer than the repository's 1.23.5) is used to get testing/synctest"],
 }
 
+INSTR = ["go", "run", "-C", "{root}/kit", "./cmd/instr"]
+
+CHECKS["C12"] = {
+    "title": "scheduler dispatches once; shutdown safe in every interleaving",
+    "go": GO126,
+    "crash_is_violation": True,
+    "generate": [
+        {"cmd": INSTR + ["{repo}/internal/target/queue/timewheel.go", "{out}"], "out": "timewheel_instr.go", "replaces": "internal/target/queue/timewheel.go"},
+        {"cmd": INSTR + ["{repo}/internal/target/queue/queue.go", "{out}"], "out": "queue_instr.go", "replaces": "internal/target/queue/queue.go"},
+    ],
+    "units": [
+        {"name": "queue", "pkg": "internal/target/queue", "run": "^TestVerifC12",
+         "overlay": dict(QUEUE_COMMON, **{"verif_c01_test.go": "harness/C01/queue_test.go", "verif_c12_test.go": "harness/C12/timewheel_test.go",
+                                          "verif_c12q_test.go": "harness/C12/queue_sched_test.go"}), "overlay_abs": VERIFX},
+    ],
+    "quick": {"n": 48, "shards": 16},
+    "thorough": {"n": 1600, "shards": 16},
+    "min_nontrivial": 50,
+    "level_text": "systematic, delay-bounded schedule exploration: scenarios are sampled (rapid); for each, every schedule with at most two deviations from a deterministic default "
+                  "scheduler is enumerated over the real timewheel.go / queue.go, whose synchronisation points are handed to a harness-owned scheduler by an AST rewriter, "
+                  "on a virtual clock (testing/synctest).",
+    "level_note": "pre-emption only at synchronisation operations; more than two deviations and data races proper are not covered; select's random choice is not controlled "
+                  "(failures must reproduce from their schedule); built with go1.26.8",
+    "technique": "property-based scenario generation (rapid) + exhaustive delay-bounded (d<=2) schedule enumeration with an owned scheduler and virtual clock",
+    "assumptions": ["toolchain go1.26.8 (newer than the repository's 1.23.5) is used to get testing/synctest"],
+}
+
 # properties deliberately not claimed: {"property_id":..., "reason":...}
 NOT_APPLICABLE = []
 
-FIX_COMMITS = ["b0fbfbf", "ce16772", "79536cb", "9da7ceb", "ba9a898", "cd17c24", "0f579ef", "cfad1cd", "1450983", "0eb6137", "4ba5ca6", "2f36527", "0e0d97d", "b946db5"]
+FIX_COMMITS = ["b0fbfbf", "ce16772", "79536cb", "9da7ceb", "ba9a898", "cd17c24", "0f579ef", "cfad1cd", "1450983", "0eb6137", "4ba5ca6", "2f36527", "b732485", "0e0d97d", "b946db5"]
